@@ -25,4 +25,10 @@ META = {
         "level_text": "Every write shape a peer can send is generated against lists mixing changeable, unchangeable and flag-less elements, sent over the wire by a bound peer and judged from the result datagram and DataCopy: protected elements deep-equal afterwards, flags never altered, error => data byte-identical, success => all addressed changeable elements show the change, unaddressed elements neither change nor influence the verdict (re-executed on two variant worlds). Exhaustive for lists up to 3 (quick) / 4 (thorough) elements with fixed field values; random beyond.",
         "level_note": "Trusted: reference fold for P4, the harness's notion of 'addressed' (DESIGN §4 C04). Open finding F03 (full write replaces protected elements) is reported as KNOWN-FINDING by signature; any other predicate/shape combination is a violation.",
     },
+    "C11": {
+        "technique": "property-based testing (rapid histories): retained snapshots compared with their recorded encoding after every later update; before/after equality for failed and non-persisting updates",
+        "design_ref": "DESIGN.md §4 C11",
+        "level_text": "Snapshots (DataCopy of local and remote features, event payloads, use-case data) are retained and re-encoded after each of up to 5 later updates of all shapes and origins; any difference from the text recorded when the snapshot was taken is a violation. Failed remote writes and persist=false updates must leave DataCopy unchanged. Exploration over generated histories.",
+        "level_note": "Trusted: JSON encoding as the observation of a value. The concurrent-read clause is explored by the -race campaign of C17 (readers encoding snapshots against updaters), not by this check.",
+    },
 }
